@@ -27,7 +27,15 @@ def affine(t):
     """(base term | None, constant) with t = base + constant for i64 Add/Sub with constants"""
     if is_c(t) and isinstance(t[1], int):
         return None, t[1]
-    if t[0] == "bin" and t[1] in ("Add", "Sub") and t[4] in ("i64", "i32", "isize"):
+    if t[0] == "cast" and len(t) == 4 and t[2] in sym.INT_TYS and t[3] in sym.INT_TYS:
+        flo, fhi = sym.ty_range(t[2])
+        tlo, thi = sym.ty_range(t[3])
+        if tlo <= flo and fhi <= thi:
+            base, k = affine(t[1])          # a value-preserving widening commutes with + and - of constants
+            if k != 0 or base is not t[1]:
+                return (None if base is None else sym.cast(base, t[2], t[3])), k
+    if t[0] == "bin" and t[1] in ("Add", "Sub") and t[4] in sym.INT_TYS:
+        # a sum/difference that was evaluated at all did not wrap (checked arithmetic panics, `checked_*` returns None)
         a, b = t[2], t[3]
         if is_c(b) and isinstance(b[1], int):
             base, k = affine(a)
@@ -173,6 +181,20 @@ def m_date_checked_add(ev, a, t, d):
     raise sym.Undecided("checked date addition of an unbounded or non-day duration")
 
 
+def m_pred_opt(ev, a, t, d):
+    dt = a[0]
+    if dt[0] == "date" and (dt[1] is None or small_unsigned(dt[1])):
+        return some(("date", dt[1], dt[2] - 1))
+    raise sym.Undecided("pred_opt of an unbounded date")
+
+
+def m_succ_opt(ev, a, t, d):
+    dt = a[0]
+    if dt[0] == "date" and (dt[1] is None or small_unsigned(dt[1])):
+        return some(("date", dt[1], dt[2] + 1))
+    raise sym.Undecided("succ_opt of an unbounded date")
+
+
 def m_days_new(ev, a, t, d):
     return ("dur", 86_400_000, a[0])
 
@@ -221,6 +243,8 @@ MODELS = {
     "chrono::naive::date::NaiveDate::checked_add_signed": m_date_checked_add,
     "chrono::naive::date::NaiveDate::checked_add_days": m_date_checked_add,
     "chrono::naive::Days::new": m_days_new,
+    "chrono::naive::date::NaiveDate::pred_opt": m_pred_opt,
+    "chrono::naive::date::NaiveDate::succ_opt": m_succ_opt,
     "chrono::naive::time::NaiveTime::overflowing_add_signed": m_overflowing_add_signed,
     "chrono::naive::date::NaiveDate::and_time": m_and_time,
     "chrono::naive::datetime::NaiveDateTime::and_utc": m_and_utc,
